@@ -160,6 +160,20 @@ Definition init_chain (rel : path) : list fs_op :=
 (* _is_shared_core: project_root in core_path.parents — any core strictly below the base *)
 Definition is_shared_core (c : config) : bool := Nat.leb 1 (length (rel_core c)).
 
+(* sorted(...) on tag keys (the tags here are their own normalised keys: lower-case ASCII words) *)
+Fixpoint str_leb (a b : str) : bool :=
+  match a, b with
+  | [], _ => true
+  | _ :: _, [] => false
+  | x :: a', y :: b' => if x <? y then true else if x =? y then str_leb a' b' else false
+  end.
+Fixpoint insert_str (x : str) (l : list str) : list str :=
+  match l with
+  | [] => [x]
+  | y :: r => if str_leb x y then x :: l else y :: insert_str x r
+  end.
+Definition sort_strs (l : list str) : list str := fold_right insert_str [] l.
+
 Definition core_ops : list fs_op :=
   [Mkdirs []]
   ++ flat_map (fun f => [Mkdirs (removelast f); Write f 0]) runtime_files
@@ -204,7 +218,9 @@ Definition rel_effects (c : config) (diff : bool) (st : stage) : list fs_op :=
   | Mocks =>
       map (rebase o)
         ([Mkdirs [s_mocks; s_endpoints]]
-         ++ map (fun t => Write [s_mocks; s_endpoints; s_mock_ ++ t ++ s_dot_py] 0) (tags c)
+         (* MocksEmitter: one module per tag, in the order of ClientVisitor.tag_tuples (sorted by tag key);
+            the endpoints emitter above keeps the order of first appearance *)
+         ++ map (fun t => Write [s_mocks; s_endpoints; s_mock_ ++ t ++ s_dot_py] 0) (sort_strs (tags c))
          ++ [Write [s_mocks; s_endpoints; s_init] 0; Write [s_mocks; s_mock_client] 0; Write [s_mocks; s_init] 0])
   | RichInit =>   (* _write_client_init: in both paths when a core package was given *)
       match core_pkg c with Some _ => [Write (o ++ [s_init]) 0] | None => [] end
